@@ -48,7 +48,7 @@ items = []
 main = os.path.join(V, 'KNOWN_FINDINGS.json')
 kd = os.path.join(V, 'known_findings')
 seen = set()
-srcs = [main] + [os.path.join(kd, f) for f in sorted(os.listdir(kd)) if f.endswith('.json')]
+srcs = [os.path.join(kd, f) for f in sorted(os.listdir(kd)) if f.endswith('.json')]   # the fragments are the source of truth
 for s in srcs:
     if os.path.exists(s):
         for k in json.load(open(s)).get('findings', []):
